@@ -31,7 +31,7 @@ static void prop(Tape &t, Ctx &c) {
                      "pkcs8-keytype", "unexpected key type %d after success", key.type);
             psClearPubKey(&key);
         }
-        leak.check(fmt("rc=%d pass=%s", rc, pass ? pass : "(null)"));
+        C09_LEAK_CHECK(leak, "rc=%d pass=%s", rc, pass ? pass : "(null)");
     }
     if (rc >= 0) c.count(fmt("parsed.type%d%s", type, pass ? ".encrypted" : ""));
     else if (deep) c.count(pass ? "rejected.deep.pw" : "rejected.deep"); else c.count("rejected.shallow");
